@@ -341,7 +341,9 @@ var c17Strings = []string{"", "a", "ab", "abc", "abab", "aaa", "aaaa", "abcabc",
 var c17Patterns = []string{"a", "^a", "a$", "^a+$", "a*", "[ab]+", "a|b", "(ab)+", ".", "^$", "\\d+", "\\s", "[^a]", "a{2}", "a{2,}", "(", "[a", "*", "a{2,1}", "\\", "(?i)abc", "中", "^.b", "b?c", "(a)(b)?", "x*", "\\bworld\\b", "[a-c]{3}", "(?P<n>a)", "\\p{Han}+", "a**", "(?<x>a)",
 	// an unmatched closing parenthesis as the only syntax, brackets that are literals, slash-delimited lookalikes
 	"a.b", "^.*$", "^.$", "x.y.", ".+", "(?s)a.b", "(?m)^b$", "a\\nb", "[^a]b",
-	")", "a)", "total)", "())", "]", "}", "a]", "/a/", "/usr/", "/a/i", "/^a/m", "//", "/", "a/i"}
+	")", "a)", "total)", "())", "]", "}", "a]", "/a/", "/usr/", "/a/i", "/^a/m", "//", "/", "a/i",
+	// blanks at the edges of a pattern are part of it
+	"a ", " a", " ", "  ", "b\n", "\ta", "x \n", " x ", "\u00a0", "a\u3000"}
 
 // StrKindCase: the same text supplied by the caller as a defined type and as its underlying type.
 type StrKindCase struct {
